@@ -186,7 +186,7 @@ type rendered struct {
 	extNames named
 }
 
-func renderJSON(w *whello) (*rendered, error) {
+func renderJSON(w *whello, variant int) (*rendered, error) {
 	r := &rendered{}
 	var err error
 	if r.suites, err = nameList(dicttls.DictCipherSuiteValueIndexed, w.suites, true); err != nil {
@@ -201,7 +201,11 @@ func renderJSON(w *whello) (*rendered, error) {
 		r.extNames.vals = append(r.extNames.vals, uint64(e.id))
 		if isGrease(e.id) {
 			r.extNames.names = append(r.extNames.names, "GREASE")
-			exts = append(exts, obj{"name": "GREASE"})
+			o := obj{"name": "GREASE"}
+			if variant%2 == 1 { // the optional members of the GREASE object
+				o["id"], o["keep_id"], o["data"], o["keep_data"] = e.id, true, e.data, true
+			}
+			exts = append(exts, o)
 			continue
 		}
 		name, ok := dicttls.DictExtTypeValueIndexed[e.id]
@@ -211,7 +215,7 @@ func renderJSON(w *whello) (*rendered, error) {
 		r.extNames.names = append(r.extNames.names, name)
 		o := obj{"name": name}
 		switch e.id {
-		case 0, 5, 17, 18, 23, 35, 13172, 30032, 65281:
+		case 0, 5, 17, 18, 23, 35, 13172, 30031, 30032, 65281:
 			// name only
 		case 10:
 			l, err := parseU16Vec16(e.data)
@@ -257,13 +261,45 @@ func renderJSON(w *whello) (*rendered, error) {
 			if err != nil {
 				return nil, err
 			}
-			if e.id == 16 {
-				o["protocol_name_list"] = ps
-			} else {
-				o["supported_protocols"] = ps
+			// an empty list is written by leaving the optional member out
+			if len(ps) > 0 || variant%2 == 1 {
+				if ps == nil {
+					ps = []string{}
+				}
+				if e.id == 16 {
+					o["protocol_name_list"] = ps
+				} else {
+					o["supported_protocols"] = ps
+				}
 			}
 		case 21:
-			o["len"] = 0
+			if variant%2 == 0 {
+				o["len"] = 0
+			}
+		case 24:
+			if len(e.data) < 3 || int(e.data[2]) != len(e.data)-3 {
+				return nil, errNotDescribable
+			}
+			o["token_binding_version"] = obj{"major": e.data[0], "minor": e.data[1]}
+			var kp []string
+			for _, p := range e.data[3:] {
+				if int(p) > 2 {
+					return nil, fmt.Errorf("%w: token binding key parameter %d", errNotDescribable, p)
+				}
+				kp = append(kp, []string{"rsa2048_pkcs1.5", "rsa2048_pss", "ecdsap256"}[p])
+			}
+			if len(kp) > 0 || variant%2 == 1 {
+				if kp == nil {
+					kp = []string{}
+				}
+				o["key_parameters_list"] = kp
+			}
+		case 41:
+			ids, binders, err := parsePSK(e.data)
+			if err != nil {
+				return nil, err
+			}
+			o["identities"], o["binders"] = ids, binders
 		case 27:
 			b, err := (&rd{e.data}).vec8()
 			if err != nil {
@@ -338,13 +374,139 @@ func renderJSON(w *whello) (*rendered, error) {
 			}
 			o["client_shares"] = shares
 		default:
-			return nil, fmt.Errorf("%w: extension %s (%d) has no documented JSON parameters here", errNotDescribable, name, e.id)
+			// an extension type the renderer has no parameter format for: name only, if it carries nothing
+			if len(e.data) != 0 {
+				return nil, fmt.Errorf("%w: extension %s (%d) carries parameters the renderer cannot express", errNotDescribable, name, e.id)
+			}
 		}
 		exts = append(exts, o)
 	}
 	doc := obj{"cipher_suites": r.suites.names, "compression_methods": r.comp.names, "extensions": exts}
 	r.js, err = json.MarshalIndent(doc, "", " ")
 	return r, err
+}
+
+type pskID struct {
+	Identity []byte `json:"identity"`
+	Age      uint32 `json:"obfuscated_ticket_age"`
+}
+
+func parsePSK(d []byte) ([]pskID, [][]byte, error) {
+	r := &rd{d}
+	ib, err := r.vec16()
+	if err != nil {
+		return nil, nil, err
+	}
+	ir := &rd{ib}
+	ids := []pskID{}
+	for len(ir.b) > 0 {
+		l, err := ir.vec16()
+		if err != nil {
+			return nil, nil, err
+		}
+		a, err := ir.take(4)
+		if err != nil {
+			return nil, nil, err
+		}
+		ids = append(ids, pskID{l, uint32(a[0])<<24 | uint32(a[1])<<16 | uint32(a[2])<<8 | uint32(a[3])})
+	}
+	bb, err := r.vec16()
+	if err != nil || len(r.b) != 0 {
+		return nil, nil, errors.New("bad pre_shared_key")
+	}
+	br := &rd{bb}
+	binders := [][]byte{}
+	for len(br.b) > 0 {
+		b, err := br.vec8()
+		if err != nil {
+			return nil, nil, err
+		}
+		binders = append(binders, b)
+	}
+	return ids, binders, nil
+}
+
+// jsonTypes: every non-GREASE extension type ExtensionFromID knows (all 2^16 ids are asked), split into the ones the
+// JSON format can express (dictionary name + UnmarshalJSON) and the rest.
+func jsonTypes() (expressible []uint16, rest map[uint16]string) {
+	rest = map[uint16]string{}
+	for id := 0; id < 65536; id++ {
+		if isGrease(uint16(id)) {
+			continue
+		}
+		ext := tls.ExtensionFromID(uint16(id))
+		if ext == nil {
+			continue
+		}
+		_, named := dicttls.DictExtTypeValueIndexed[uint16(id)]
+		_, isJSON := ext.(tls.TLSExtensionJSON)
+		switch {
+		case !named:
+			rest[uint16(id)] = "no dictionary name"
+		case !isJSON:
+			rest[uint16(id)] = "no UnmarshalJSON"
+		default:
+			expressible = append(expressible, uint16(id))
+		}
+	}
+	return
+}
+
+var expressibleSet map[uint16]bool
+
+// makeDescribable removes from a wire hello what the JSON format cannot express at all (extension types outside
+// jsonTypes, code points without a dictionary name), so that the rest of the hello still goes through both importers.
+func makeDescribable(c *vh.Ctx, w *whello) {
+	if expressibleSet == nil {
+		expressibleSet = map[uint16]bool{}
+		ex, _ := jsonTypes()
+		for _, id := range ex {
+			expressibleSet[id] = true
+		}
+	}
+	keep16 := func(vi map[uint16]string, l []uint16, what string) []uint16 {
+		var out []uint16
+		for _, v := range l {
+			if _, ok := vi[v]; ok || isGrease(v) {
+				out = append(out, v)
+			} else {
+				c.Count("stripped-unnamed-" + what)
+			}
+		}
+		return out
+	}
+	w.suites = keep16(dicttls.DictCipherSuiteValueIndexed, w.suites, "cipher-suite")
+	var exts []wext
+	for _, e := range w.exts {
+		if !isGrease(e.id) && !expressibleSet[e.id] {
+			c.Count(fmt.Sprintf("stripped-extension-%d", e.id))
+			continue
+		}
+		switch e.id {
+		case 10:
+			if l, err := parseU16Vec16(e.data); err == nil {
+				e.data = encU16Vec16(keep16(dicttls.DictSupportedGroupsValueIndexed, l, "group"))
+			}
+		case 13, 50, 34:
+			if l, err := parseU16Vec16(e.data); err == nil {
+				e.data = encU16Vec16(keep16(dicttls.DictSignatureSchemeValueIndexed, l, "signature-scheme"))
+			}
+		case 51:
+			if ks, err := parseKeyShares(e.data); err == nil {
+				var out []kshare
+				for _, k := range ks {
+					if _, ok := dicttls.DictSupportedGroupsValueIndexed[k.group]; ok || isGrease(k.group) {
+						out = append(out, k)
+					} else {
+						c.Count("stripped-unnamed-key-share")
+					}
+				}
+				e.data = encKeyShares(out)
+			}
+		}
+		exts = append(exts, e)
+	}
+	w.exts = exts
 }
 
 // ---------- building hellos ----------
@@ -383,12 +545,14 @@ func namedCase(c *vh.Ctx, kind, ctor, table string, n named, got []uint64, gotOK
 }
 
 // compareImports: one wire hello through the JSON importer and through the raw importer.
-func compareImports(c *vh.Ctx, label string, raw []byte, toCoq bool) {
+func compareImports(c *vh.Ctx, label string, raw []byte, toCoq bool, variant int) {
 	w0, err := parseHello(raw)
 	if err != nil {
 		panic("C32 runner: cannot parse ClientHello of " + label + ": " + err.Error())
 	}
-	rj, err := renderJSON(w0)
+	makeDescribable(c, w0)
+	raw = w0.rebuild()
+	rj, err := renderJSON(w0, variant)
 	if err != nil {
 		if errors.Is(err, errNotDescribable) {
 			c.Count("skip-not-describable-in-json")
@@ -413,6 +577,11 @@ func compareImports(c *vh.Ctx, label string, raw []byte, toCoq bool) {
 		return
 	}
 	c.Count("hellos-through-both-importers")
+	for _, e := range w0.exts {
+		if !isGrease(e.id) {
+			c.Count(fmt.Sprintf("ext-type-through-both-importers/%05d", e.id))
+		}
+	}
 	imported := captureImported(specJSON) // before ApplyPreset re-GREASEs the shared extension objects in place
 	// names -> intended code points, directly on the imported spec
 	want := make([]uint16, len(w0.suites))
